@@ -178,7 +178,17 @@ fn program(history: &[Op], ops: &[Op], keys: &[PoolKey]) -> Vec<Stmt> {
     prog.push(print_stmt(bin(BinOp::Eq, call(var("build"), vec![]), call(var("build"), vec![]))));
     // every transition from a fresh copy of the state
     for op in ops {
-        prog.push(block(vec![var_stmt("m", call(var("build"), vec![])), probe(op_stmt("m", op)), expr_stmt(call(var("dump"), vec![var("m")]))]));
+        prog.push(block(vec![
+            var_stmt("m", call(var("build"), vec![])),
+            probe(op_stmt("m", op)),
+            expr_stmt(call(var("dump"), vec![var("m")])),
+            // the map is still a working map after the operation (also after a rejected one): a write, a
+            // read and a removal of a key outside the pool, then the full dump again
+            probe(invoke(var("m"), "insert", vec![s("outside the pool"), num(77.0)])),
+            probe(invoke(var("m"), "get", vec![s("outside the pool")])),
+            probe(invoke(var("m"), "remove", vec![s("outside the pool")])),
+            expr_stmt(call(var("dump"), vec![var("m")])),
+        ]));
     }
     prog
 }
